@@ -71,7 +71,10 @@ def channels(tier):
     ch = ["batch:df", "batch:dict", "batch:json", "session:steps", "session:results_by_time", "session:results_nested",
           "session:results_flat", "session:settings@1", "session:settings@last",
           "rest:run", "rest:run-step*", "rest:run-steps(all)", "rest:step+steps+step", "rest:step+stream",
-          "rest:session-results", "rest:flat-session-results", "rest:run-step-settings@1", "rest:run-steps-settings@2"]
+          "rest:session-results", "rest:flat-session-results", "rest:run-step-settings@1", "rest:run-steps-settings@2",
+          # sequences of channels on ONE bptk / server instance: what came before must not matter
+          "after-batch:session:steps", "after-batch:session:settings@1", "after-session:batch:df", "after-session:session:settings@last",
+          "after-batch:batch:json", "rest-after-run:run-step-settings@1"]
     return ch
 
 
@@ -81,8 +84,20 @@ def run_channel(spec, channel, mode, env=None):
     start, dt, n = spec
     nlab = n + 1
     changes = []
+    prior = None
+    if channel.startswith("after-batch:"):
+        prior, channel = "batch", channel[len("after-batch:"):]
+    elif channel.startswith("after-session:"):
+        prior, channel = "session", channel[len("after-session:"):]
     if channel.startswith("batch") or channel.startswith("session"):
         b, consts = make_bptk(spec, mode, env)
+        if prior == "batch":
+            b.run_scenarios(scenarios=["A"], scenario_managers=["sm"], equations=scen.EQS, return_format="df")
+        elif prior == "session":
+            b.begin_session(scenarios=["A"], scenario_managers=["sm"], equations=scen.EQS, starttime=start, dt=dt)
+            b.run_step()
+            b.run_step(settings={"sm": {"A": {"constants": {"c": new_c(mode, env, "c_prior")}}}})
+            b.end_session()
         if channel.startswith("batch"):
             fmt = channel.split(":")[1]
             r = b.run_scenarios(scenarios=["A"], scenario_managers=["sm"], equations=scen.EQS, return_format=fmt)
@@ -138,6 +153,10 @@ def run_channel(spec, channel, mode, env=None):
         r = post("/run", {"scenario_managers": ["sm"], "scenarios": ["A"], "equations": scen.EQS})
         return scen.from_dict(scen.loads(r.data), "sm", "A"), changes, holder["consts"]
     inst = json.loads(post("/start-instance", {"timeout": {"hours": 1}}).data)["instance_uuid"]
+    if channel.startswith("rest-after-run:"):
+        channel = "rest:" + channel[len("rest-after-run:"):]
+        # a batch run on the instance's own bptk object, then the session
+        app._instance_manager._instances[inst]["instance"].run_scenarios(scenarios=["A"], scenario_managers=["sm"], equations=scen.EQS)
     post("/%s/begin-session" % inst, {"scenario_managers": ["sm"], "scenarios": ["A"], "equations": scen.EQS})
     steps = []
 
